@@ -280,7 +280,8 @@ class _Frame:
 
 class Interp:
     def __init__(self, W, classes=(), loop_mode=None, default_loop="fork", max_unroll=80, always_interpret=(),
-                 attr_stubs=None, fn_stubs=None, decide_timeout_ms=30000, mutants=None, unroll=None):
+                 attr_stubs=None, fn_stubs=None, decide_timeout_ms=30000, mutants=None, unroll=None,
+                 fork_on_return=False):
         self.W = W
         self.classes = set(classes)
         self.loop_mode = dict(loop_mode or {})       # qualname -> "merge" | "fork"
@@ -294,6 +295,7 @@ class Interp:
         self.src = {}
         self.nomerge = set()
         self.unroll_hint = {}
+        self.fork_on_return = fork_on_return          # early exits (`if c: return/raise`) fork instead of merging
         self.unroll = dict(unroll or {})              # qualname -> initial unrolling of its merged loops (validated by the
                                                       # deferred unwinding assertion, raised automatically when too small)
         self.ctx = None
@@ -1147,6 +1149,15 @@ class Interp:
             raise NotEncodable(f"assignment target {type(t).__name__}")
 
     @staticmethod
+    def _has_exit(stmts):
+        for s in stmts:
+            if isinstance(s, (ast.Return, ast.Raise)):
+                return True
+            if isinstance(s, ast.If) and (Interp._has_exit(s.body) or Interp._has_exit(s.orelse)):
+                return True
+        return False
+
+    @staticmethod
     def _has_jump(stmts):
         for s in stmts:
             if isinstance(s, (ast.Break, ast.Continue)):
@@ -1167,6 +1178,8 @@ class Interp:
         g = self.g
         fork = id(s) in self.nomerge
         if not fork and fr.loops and fr.loops[-1]["mode"] == "fork" and (self._has_jump(s.body) or self._has_jump(s.orelse)):
+            fork = True
+        if not fork and self.fork_on_return and (self._has_exit(s.body) or self._has_exit(s.orelse)):
             fork = True
         if fork:
             if self.decide_guarded(ce):
